@@ -279,6 +279,10 @@ var templates = []func(u string) string{
 		return "func cf" + u + "() { try { nosuch" + u + " } catch ce" + u + " { } }\ncv" + u + " = cf" + u + "()\nrec(cv" + u + ")\ncp" + u + " = &cv" + u + "\n*cp" + u + " = base\nrec(cv" + u + ")\ntry { nosuch" + u + " } catch cg" + u + " { }\nrec(cf" + u + "())"
 	},
 	func(u string) string {
+		// the same through a failed MEMBER lookup of a module
+		return "module cm" + u + " { here = 1 }\nfunc cmf" + u + "() { try { cm" + u + ".nosuch } catch ce" + u + " { } }\ncmv" + u + " = cmf" + u + "()\nrec(cmv" + u + ")\ncmp" + u + " = &cmv" + u + "\n*cmp" + u + " = base\nrec(cmv" + u + ")\ntry { cm" + u + ".nosuch } catch cg" + u + " { }\nrec(cmf" + u + "())\nrec(hnil)"
+	},
+	func(u string) string {
 		// a variable the host bound to nil is a variable like any other: writing through its address changes it and nothing else
 		return "rec(hnil)\nhp" + u + " = &hnil\n*hp" + u + " = base\nrec(hnil)\nhq" + u + " = nil\nrec(hq" + u + ")\nrec(nil)"
 	},
